@@ -433,6 +433,7 @@ func pvCorpus() [][]pvStep {
 func checkC03(c *Ctx) {
 	c03Handover(c)
 	c03Revocation(c)
+	c03Rekey(c)
 	c03PlainFraming(c)
 	c.SetRule("histories of 1-10 symbolic pair-verify messages on 1-2 interleaved connections with a pairing store that changes between messages " +
 		"(alphabet: start with good / wrong-length key; finish genuine, unknown name, entity without key, stored key ≠ signer, garbage/empty signature, " +
@@ -1183,5 +1184,77 @@ func c03PlainFraming(c *Ctx) {
 			m = m[:p]
 		}
 		c.Same("plain", c.CaseID("plain", i), ins[i], m, impls[i])
+	}
+}
+
+// c03Rekey: a second pair-verify on a connection that is already encrypted (session σ1 → σ2) while a read is waiting:
+// the answer still goes out under σ1, what the controller sends afterwards under σ2 is decrypted with σ2.
+func c03Rekey(c *Ctx) {
+	for _, pending := range []bool{true, false} {
+		id := fmt.Sprintf("rekey#pending=%v", pending)
+		if c.Skip(id) {
+			continue
+		}
+		r := c.CaseRng("rekey", 0)
+		raw := newHoConn()
+		ctx := hap.NewContextForSecuredDevice(nil)
+		conn := hap.NewConnection(raw, ctx)
+		sess := ctx.GetSessionForConnection(raw)
+		var k1, k2 [32]byte
+		copy(k1[:], randBytes(r, 32))
+		copy(k2[:], randBytes(r, 32))
+		s1, _ := crypto.NewSecureSessionFromSharedKey(k1)
+		s2, _ := crypto.NewSecureSessionFromSharedKey(k2)
+		p1, p2 := newRefControllerSession(k1[:]), newRefControllerSession(k2[:])
+		sess.SetCryptographer(s1)
+		responseWritten(ctx, raw)
+		type rd struct {
+			b   []byte
+			err error
+		}
+		done := make(chan rd, 1)
+		read := func() {
+			buf := make([]byte, 256)
+			n, err := conn.Read(buf)
+			done <- rd{buf[:n], err}
+		}
+		if pending {
+			go read()
+			select {
+			case <-raw.started:
+			case <-time.After(2 * time.Second):
+			}
+		}
+		sess.SetCryptographer(s2)
+		raw.mu.Lock()
+		raw.out = nil
+		raw.mu.Unlock()
+		answer := []byte("HTTP/1.1 200 OK\r\nContent-Length: 3\r\n\r\n\x06\x01\x04")
+		conn.Write(answer)
+		raw.mu.Lock()
+		var wire []byte
+		for _, o := range raw.out {
+			wire = append(wire, o...)
+		}
+		raw.mu.Unlock()
+		in := map[string]interface{}{"read_waiting_when_the_new_cryptographer_is_negotiated": pending}
+		if pt, _, ok := p1.DecryptFrames(wire); !ok || !bytes.Equal(pt, answer) {
+			c.Violate("the answer to a pair-verify finish on an encrypted connection is not sent under the session that was in use", id, in, "decrypts under the old session", fmt.Sprintf("%d bytes, ok=%v", len(pt), ok))
+		}
+		request := []byte("GET /accessories HTTP/1.1\r\nHost: x\r\n\r\n")
+		raw.push(p2.Encrypt(request))
+		if !pending {
+			go read()
+		}
+		select {
+		case x := <-done:
+			if x.err != nil || !bytes.HasPrefix(request, x.b) || len(x.b) == 0 {
+				c.Violate("bytes sent by the controller under the newly negotiated session do not arrive decrypted (read was already waiting)", id, in, string(request), fmt.Sprintf("%q err=%v", trunc(string(x.b), 40), x.err))
+			}
+		case <-time.After(4 * time.Second):
+			c.Violate("read on the connection does not return after bytes arrived", id, in, "request bytes", "timeout")
+		}
+		raw.Close()
+		c.Count(id, true, "stream:rekey")
 	}
 }
